@@ -88,11 +88,16 @@ structure Chan where
   cap : Nat
   deriving Repr, Inhabited
 
+structure Wg where
+  name : String
+  /-- the counter after the constructor's `wg.Add` calls -/
+  init : Nat
+  deriving Repr, Inhabited
+
 structure Pipeline where
   name : String
   chans : List Chan
-  /-- wait groups with their counter after the constructor's `wg.Add` calls -/
-  wgs : List Nat
+  wgs : List Wg
   /-- number of contexts; context 0 is the pipeline's own (the one with the deadline) -/
   nctx : Nat
   gs : List Goroutine
@@ -123,6 +128,11 @@ def Pipeline.gname (p : Pipeline) (g : Gi) : String :=
 def Pipeline.cname (p : Pipeline) (c : Ch) : String :=
   match p.chans[c]? with
   | some ch => ch.name
+  | none => "?"
+
+def Pipeline.wname (p : Pipeline) (w : Nat) : String :=
+  match p.wgs[w]? with
+  | some x => x.name
   | none => "?"
 
 end Dos.Pipe
